@@ -33,6 +33,8 @@ type Options struct {
 	Debug   bool
 	Seed    int64
 	Known   map[string]bool
+	// PathWorkers is the number of parallel path explorers per harness.
+	PathWorkers int
 }
 
 type HarnessRun struct {
@@ -75,21 +77,30 @@ func RunOne(p *sym.Program, name string, o Options) *HarnessRun {
 	cfg.Deadline = time.Now().Add(time.Duration(to) * time.Second)
 	cfg.MaxConc = hc.MaxConc
 	ex := sym.NewExec(p, cfg)
-	solver := smt.NewSolver(ex.Ctx())
-	if o.Tier > 0 {
-		solver.TimeoutMS = 120000
-		solver.CrossEvery = 20
-		solver.CrossTimeoutMS = 10000
-	} else {
-		solver.CrossEvery = 50
+	mk := func() *smt.Solver {
+		solver := smt.NewSolver(ex.Ctx())
+		if o.Tier > 0 {
+			solver.TimeoutMS = 120000
+			solver.CrossEvery = 20
+			solver.CrossTimeoutMS = 10000
+		} else {
+			solver.CrossEvery = 50
+		}
+		if d := os.Getenv("GOSMT_DUMP"); d != "" {
+			solver.DumpDir = d
+			solver.DumpSlowMS = 500
+			_ = os.MkdirAll(d, 0o755)
+		}
+		return solver
 	}
-	if d := os.Getenv("GOSMT_DUMP"); d != "" {
-		solver.DumpDir = d
-		solver.DumpSlowMS = 500
-		_ = os.MkdirAll(d, 0o755)
-	}
+	solver := mk()
 	defer solver.Close()
 	ex.SetSolver(solver)
+	nw := o.PathWorkers
+	if nw == 0 {
+		nw = 8
+	}
+	ex.SetSolverFactory(nw, mk)
 	if err := ex.RunInit(); err != nil {
 		hr.Err = err
 		return hr
